@@ -9,9 +9,9 @@ for ID in "$@"; do
   git apply $S/patch.diff || { echo "$ID: patch does not apply"; cd /; git -C /repo worktree remove --force $W; continue; }
   go build ./app/... ./x/... >/dev/null 2>&1 && B=ok || B=FAIL
   go test -vet=off -count=1 ./zzdemo/... >/dev/null 2>&1 && WITH=PASS || WITH=FAIL
+  NOK=$(go test -vet=off -count=1 -json ./x/.../types/... 2>/dev/null | grep '"Action":"pass"' | grep -c '"Test"')
   git apply -R $S/patch.diff
   go test -vet=off -count=1 ./zzdemo/... >/dev/null 2>&1 && WITHOUT=PASS || WITHOUT=FAIL
-  NOK=$(go test -vet=off -count=1 -json ./x/... 2>/dev/null | grep -c '"Action":"pass".*"Test"')
   cd /; git -C /repo worktree remove --force $W
-  echo "$ID: build=$B demo_with_patch=$WITH demo_without_patch=$WITHOUT"
+  echo "$ID: build=$B demo_with_patch=$WITH demo_without_patch=$WITHOUT types_tests_passing_with_patch=$NOK"
 done
